@@ -81,3 +81,29 @@ Theorem C13_fuzzy_base_categories_obey_the_upper_bound :
 Proof. exact dv_fuzzy_step_bound. Qed.
 Print Assumptions C13_absorbing_category_passed_rho.
 Print Assumptions C13_fuzzy_base_categories_obey_the_upper_bound.
+
+(* ... and, generically in the base module (Wrap_bound.v), after every whole fit call: Fuzzy ART |w| >= rho d,
+   Hypersphere ART radius <= r_hat (1 - rho), Ellipsoid ART radius <= r_hat (1 - rho) / 2 *)
+From ART Require Import Topo_bound Wrap_bound Hyper Hyper_total Ellip_total.
+Theorem C13_fit_fuzzy_base_categories_obey_the_upper_bound :
+  forall (alpha beta rho0 d : R) (n : nat), (0 <= beta <= 1)%R -> (rho0 <= 1)%R -> (0 < d)%R ->
+  forall (s : dv (N:=RN)) X veto mode eps lb s' ls,
+    raising mode eps -> rho (DB s) = [rho0] -> Forall (cc_ok d n) X ->
+    dv_fit (@fuzzyK RN alpha beta) s X veto mode eps lb = Some (s', ls) ->
+    Forall (fz_ok rho0 d n) (W (DB s')) /\ rho (DB s') = [rho0].
+Proof. exact dv_fuzzy_fit_bound. Qed.
+Theorem C13_fit_hypersphere_base_categories_obey_the_upper_bound :
+  forall (alpha beta r_hat rho0 : R), (0 <= beta <= 1)%R -> (0 < r_hat)%R -> (rho0 <= 1)%R ->
+  forall (s : dv (N:=RN)) X veto mode eps lb s' ls,
+    raising mode eps -> rho (DB s) = [rho0] ->
+    dv_fit (@hyperK RN alpha beta r_hat) s X veto mode eps lb = Some (s', ls) ->
+    Forall (hs_ok r_hat rho0) (W (DB s')) /\ rho (DB s') = [rho0].
+Proof. exact dv_hyper_fit_bound. Qed.
+Theorem C13_fit_ellipsoid_base_categories_obey_the_upper_bound :
+  forall (alpha beta mu r_hat rho0 : R), (0 <= beta <= 1)%R -> (0 < r_hat)%R -> (rho0 <= 1)%R ->
+  forall (s : dv (N:=RN)) X veto mode eps lb s' ls,
+    raising mode eps -> rho (DB s) = [rho0] ->
+    dv_fit (@ellipK RN alpha beta mu r_hat) s X veto mode eps lb = Some (s', ls) ->
+    Forall (el_ok r_hat rho0) (W (DB s')) /\ rho (DB s') = [rho0].
+Proof. exact dv_ellipsoid_fit_bound. Qed.
+Print Assumptions C13_fit_hypersphere_base_categories_obey_the_upper_bound.
